@@ -84,7 +84,7 @@ variable (c : Cfg) (keep : Nat → Bool)
 requested (for the first time) no trace is buffered and no span is waiting in a worker's queue,
 then afterwards every accepted span has its outcome (forwarded iff kept); in particular
 everything already decided and waiting in `tracesToSend` is forwarded before `Stop` returns. -/
-theorem stop_decides_all_partial (ops : List Op) (hf : c.fixed = false) (hns : Op.stop ∉ ops)
+theorem stop_decides_all_partial (ops : List Op) (hf : c.fixed = false) (hns : ∀ o ∈ ops, o.isStop = false)
     (hb : (run c keep ops).buf = []) (hq : (run c keep ops).qIn = []) (hp : (run c keep ops).qPeer = []) :
     (run c keep (ops ++ [.stop])).buf = [] ∧ (run c keep (ops ++ [.stop])).qIn = [] ∧
     (run c keep (ops ++ [.stop])).qPeer = [] ∧ (run c keep (ops ++ [.stop])).toSend = [] ∧
@@ -225,6 +225,95 @@ theorem span_after_stop (s : St) (dt w : Nat) (peer : Bool) (sp : Span) (h : s.s
   exact ⟨rfl, rfl⟩
 
 end partial_
+
+/-! ## `Stop`'s order: no producer sends on `tracesToSend` after it has been closed -/
+
+/-- **no_send_after_close** (the coded order: close the inputs, wait for the workers, close
+`tracesToSend`, wait for the sender) — for every set of workers and every interleaving of worker
+steps (passes starting at any time before the worker exits, hand-overs, exits) with `Stop`'s
+phases, no worker ever sends on the closed channel: `Stop` cannot panic a worker that is between a
+keep decision and the hand-over, and the trace it is handing over reaches `tracesToSend`. -/
+theorem no_send_after_close (workers : List Nat) (evs : List PEv) :
+    (prun codedOrder workers evs).violated = false :=
+  (pinv_run workers evs).ok
+
+/-- and `tracesToSend` is closed only once every worker has exited -/
+theorem close_after_workers (workers : List Nat) (evs : List PEv)
+    (h : (prun codedOrder workers evs).outClosed = true) : (prun codedOrder workers evs).live = [] :=
+  (pinv_run workers evs).gone ((pinv_run workers evs).closed h)
+
+/-- **refuted for the swapped order** (close `tracesToSend` right after the inputs, then wait for
+the workers): a worker inside a pass with one kept trace, `Stop` runs its first two phases, the
+worker reaches `i.tracesToSend <- trace` — send on closed channel. -/
+theorem no_send_after_close_swapped_refuted :
+    ¬ ∀ (workers : List Nat) (evs : List PEv), (prun swappedOrder workers evs).violated = false := by
+  intro h
+  have := h [0] [.pass 0 1, .stop, .stop, .work 0]
+  revert this
+  decide
+
+/-- the coded order does make progress on that very interleaving: the worker hands over, exits, Stop finishes -/
+example : (prun codedOrder [0] [.pass 0 1, .stop, .stop, .work 0, .work 0, .stop, .stop, .stop]).pc = 4 ∧
+    (prun codedOrder [0] [.pass 0 1, .stop, .stop, .work 0, .work 0, .stop, .stop, .stop]).violated = false := by
+  decide
+
+section tickstop_
+variable (c : Cfg) (keep : Nat → Bool)
+
+/-- **Stop landing inside a decision pass, accounting** (code as it is and repaired): after a tick
+during which `Stop` was requested, the collector is stopped, `tracesToSend` is empty and every
+accepted span is handed over (kept), discarded (dropped), lost from a queue or still buffered —
+in particular every trace decided `keep` in that very pass has been handed to the transmission. -/
+theorem tickstop_accounting_partial (ops : List Op) (ns : Nat) :
+    (run c keep (ops ++ [.tickstop ns])).toSend = [] ∧
+    ∀ x ∈ (run c keep (ops ++ [.tickstop ns])).accepted,
+      (x ∈ (run c keep (ops ++ [.tickstop ns])).handed ∧ keep x.tid = true) ∨
+      (x ∈ (run c keep (ops ++ [.tickstop ns])).discarded ∧ keep x.tid = false) ∨
+      x ∈ (run c keep (ops ++ [.tickstop ns])).lost ∨
+      ∃ t ∈ (run c keep (ops ++ [.tickstop ns])).buf, x ∈ t.spans := by
+  have hi := run_inv c keep (ops ++ [.tickstop ns])
+  by_cases h0 : (run c keep ops).stopped = true
+  · have hs : (run c keep (ops ++ [.tickstop ns])).stopped = true := by
+      rw [run_snoc]; simp only [step]; rw [if_pos h0]; exact h0
+    obtain ⟨hq, hp, ht, _⟩ := hi.stopped hs
+    refine ⟨ht, ?_⟩
+    intro x hx
+    have hsw := hi.acc x hx
+    unfold Somewhere at hsw
+    rw [hq, hp, ht] at hsw
+    rcases hsw with ⟨_, h, _⟩ | ⟨_, h, _⟩ | h | ⟨_, h, _⟩ | h | h | h
+    · cases h
+    · cases h
+    · exact Or.inr (Or.inr (Or.inr h))
+    · cases h
+    · exact Or.inl ⟨h, hi.good.handed x h⟩
+    · exact Or.inr (Or.inl ⟨h, hi.good.disc x h⟩)
+    · exact Or.inr (Or.inr (Or.inl h))
+  · have hs : (run c keep (ops ++ [.tickstop ns])).stopped = true := by
+      rw [run_snoc]; simp only [step]; rw [if_neg h0]; rfl
+    obtain ⟨hq, hp, ht, _⟩ := hi.stopped hs
+    refine ⟨ht, ?_⟩
+    intro x hx
+    have hsw := hi.acc x hx
+    unfold Somewhere at hsw
+    rw [hq, hp, ht] at hsw
+    rcases hsw with ⟨_, h, _⟩ | ⟨_, h, _⟩ | h | ⟨_, h, _⟩ | h | h | h
+    · cases h
+    · cases h
+    · exact Or.inr (Or.inr (Or.inr h))
+    · cases h
+    · exact Or.inl ⟨h, hi.good.handed x h⟩
+    · exact Or.inr (Or.inl ⟨h, hi.good.disc x h⟩)
+    · exact Or.inr (Or.inr (Or.inl h))
+
+end tickstop_
+
+-- Stop lands while worker 0 hands over a kept trace: the trace is forwarded, worker 1 never ticks
+example : (run { nw := 2, tt := 5, sd := 2, mb := 9 } (fun _ => true)
+    [.span 1 0 false ⟨1, 1, 0, true⟩, .span 1 1 false ⟨2, 2, 0, true⟩, .tickstop 3]).handed = [⟨1, 1, 0, true⟩] ∧
+    ((run { nw := 2, tt := 5, sd := 2, mb := 9 } (fun _ => true)
+    [.span 1 0 false ⟨1, 1, 0, true⟩, .span 1 1 false ⟨2, 2, 0, true⟩, .tickstop 3]).buf.map (·.tid)) = [2] := by
+  decide
 
 /-! ## `Agent.healthCheck` after `cancel()` -/
 
